@@ -397,6 +397,20 @@ func (self *LocalJobManager) GetSystemReqs(request *JobResources) JobResources {
 		result.Threads = float64(centiCores) / 100
 	}
 
+	// Keep absurdly large requests within what an int64 count of MB can
+	// hold; they are beyond any limit either way.
+	const maxRequestGB = 1 << 40
+	if result.MemGB > maxRequestGB {
+		result.MemGB = maxRequestGB
+	} else if result.MemGB < -maxRequestGB {
+		result.MemGB = -maxRequestGB
+	}
+	if result.VMemGB > maxRequestGB {
+		result.VMemGB = maxRequestGB
+	} else if result.VMemGB < -maxRequestGB {
+		result.VMemGB = -maxRequestGB
+	}
+
 	// Sanity check and cap to self.maxMemGB.
 	var memMb, vmemMb int64
 	if result.MemGB < 0 {
